@@ -2,23 +2,33 @@
 // A goroutine may be parked at an inserted yield while it holds a lock; a real sync.Mutex
 // would leave the others blocked in a way synctest does not consider durable, and the
 // bubble would never become quiescent.  Mutex and RWMutex are therefore built on channels
-// created inside the bubble (a blocked Lock is a durably blocked channel send); everything
-// else is the real thing.
+// created inside the bubble (a blocked Lock is a durably blocked channel send).
+//
+// WaitGroup is a model of sync.WaitGroup with the steps of the real one that a schedule can
+// separate: the counter/waiter state, the semaphore that the last Done posts once per registered
+// waiter, and the re-check a waiter makes when it finally runs.  A woken waiter has not run yet:
+// until it does, anybody may call Add again, and a waiter that arrives later may take the wake-up
+// that was posted for an earlier one (the runtime semaphore allows barging).  Both end in the
+// real WaitGroup's own panic "WaitGroup is reused before previous Wait has returned", which the
+// real one raises in exactly these states.  With the real WaitGroup inside the bubble none of
+// this is reachable, because wake-up and re-check happen inside one uninterruptible step.
+// Everything else is the real thing.
 package bsync
 
 import (
+	"os"
 	"sync"
 
 	"github.com/welllog/golib/zzsim/core"
+	"github.com/welllog/golib/zzsim/syield"
 )
 
 type (
-	WaitGroup = sync.WaitGroup
-	Once      = sync.Once
-	Pool      = core.Pool
-	Map       = sync.Map
-	Locker    = sync.Locker
-	Cond      = sync.Cond
+	Once   = sync.Once
+	Pool   = core.Pool
+	Map    = sync.Map
+	Locker = sync.Locker
+	Cond   = sync.Cond
 )
 
 func NewCond(l Locker) *Cond   { return sync.NewCond(l) }
@@ -69,3 +79,78 @@ func (x *RWMutex) RUnlock()        { x.m.Unlock() }
 func (x *RWMutex) TryLock() bool   { return x.m.TryLock() }
 func (x *RWMutex) TryRLock() bool  { return x.m.TryLock() }
 func (x *RWMutex) RLocker() Locker { return &x.m }
+
+// atomicWG (VERIF_WG_ATOMIC=1) removes the scheduling point between a waiter's wake-up and its
+// re-check, which gives the behaviour of the real WaitGroup inside the bubble.  Only the
+// sensitivity tool sets it, for patches written against the tree before fix c49120b.
+var atomicWG = os.Getenv("VERIF_WG_ATOMIC") == "1"
+
+// WaitGroup: see the package comment.
+type WaitGroup struct {
+	mu     sync.Mutex // guards the fields for a few instructions; never held across a blocking point
+	v, w   int        // counter, registered waiters
+	tokens int        // wake-ups posted and not yet consumed
+	gate   chan struct{}
+}
+
+func (wg *WaitGroup) Add(delta int) {
+	wg.mu.Lock()
+	wg.v += delta
+	switch {
+	case wg.v < 0:
+		wg.mu.Unlock()
+		panic("sync: negative WaitGroup counter")
+	case wg.w != 0 && delta > 0 && wg.v == delta:
+		wg.mu.Unlock()
+		panic("sync: WaitGroup misuse: Add called concurrently with Wait")
+	case wg.v > 0 || wg.w == 0:
+		wg.mu.Unlock()
+		return
+	}
+	// the counter reached zero with waiters registered: reset the state, post one wake-up each
+	wg.tokens += wg.w
+	wg.w = 0
+	if wg.gate != nil {
+		close(wg.gate)
+		wg.gate = nil
+	}
+	wg.mu.Unlock()
+}
+
+func (wg *WaitGroup) Done() { wg.Add(-1) }
+
+func (wg *WaitGroup) Go(f func()) {
+	wg.Add(1)
+	go func() {
+		defer wg.Done()
+		f()
+	}()
+}
+
+func (wg *WaitGroup) Wait() {
+	wg.mu.Lock()
+	if wg.v == 0 {
+		wg.mu.Unlock()
+		return
+	}
+	wg.w++
+	for wg.tokens == 0 {
+		if wg.gate == nil {
+			wg.gate = make(chan struct{})
+		}
+		g := wg.gate
+		wg.mu.Unlock()
+		<-g
+		// woken, but not running yet: the scheduler decides when this goroutine continues
+		if !atomicWG {
+			syield.Y("sync.WaitGroup.Wait (woken)")
+		}
+		wg.mu.Lock()
+	}
+	wg.tokens--
+	bad := wg.v != 0 || wg.w != 0
+	wg.mu.Unlock()
+	if bad {
+		panic("sync: WaitGroup is reused before previous Wait has returned")
+	}
+}
